@@ -1,0 +1,57 @@
+/** @file verif_hooks.h
+ *
+ * Instrumentation points for external verification harnesses. Everything in this file
+ * expands to nothing unless COCLS_VERIF is defined.
+ *
+ * COCLS_VERIF_POINT(id)         marks the place just before a step on shared state (an atomic
+ *                               operation or a critical section); a harness can install a callback
+ *                               that decides which thread proceeds.
+ * COCLS_VERIF_BLOCK(id, pred)   placed just before a blocking wait; pred() tells the harness
+ *                               whether the wait would return.
+ * COCLS_VERIF_LOG(id, a, b)     reports an event from inside a critical section.
+ */
+#pragma once
+#ifndef SRC_COCLS_VERIF_HOOKS_H_
+#define SRC_COCLS_VERIF_HOOKS_H_
+
+#ifdef COCLS_VERIF
+#include <type_traits>
+
+namespace cocls {
+namespace verif {
+
+struct hooks {
+    void (*point)(const char *id) = nullptr;
+    void (*block)(const char *id, bool (*pred)(void *), void *ctx) = nullptr;
+    void (*log)(const char *id, long a, long b) = nullptr;
+};
+
+inline hooks &get_hooks() {
+    static hooks h;
+    return h;
+}
+
+template<typename Pred>
+inline void block_until(const char *id, Pred &&pred) {
+    auto &h = get_hooks();
+    if (h.block) {
+        h.block(id, [](void *ctx) -> bool {return (*static_cast<std::remove_reference_t<Pred> *>(ctx))();}, &pred);
+    }
+}
+
+}
+}
+
+#define COCLS_VERIF_POINT(id) do { auto &cocls_vh_ = ::cocls::verif::get_hooks(); if (cocls_vh_.point) cocls_vh_.point(id); } while (false)
+#define COCLS_VERIF_BLOCK(id, ...) ::cocls::verif::block_until(id, __VA_ARGS__)
+#define COCLS_VERIF_LOG(id, a, b) do { auto &cocls_vh_ = ::cocls::verif::get_hooks(); if (cocls_vh_.log) cocls_vh_.log(id, static_cast<long>(a), static_cast<long>(b)); } while (false)
+
+#else
+
+#define COCLS_VERIF_POINT(id) ((void)0)
+#define COCLS_VERIF_BLOCK(id, ...) ((void)0)
+#define COCLS_VERIF_LOG(id, a, b) ((void)0)
+
+#endif
+
+#endif /* SRC_COCLS_VERIF_HOOKS_H_ */
